@@ -2,6 +2,7 @@
   C09 - Only tenant admins act for a tenant; rejected messages change nothing.
 -/
 import SettlusModel.Proofs.Frame
+import SettlusModel.Query
 namespace Settlus.C09
 open Settlus
 
@@ -218,6 +219,16 @@ theorem removed_admin_locked_out (s : State) (a : String) (t : Nat) (n : String)
 example :
     let s := (createTenant (initState 1000000 true) "a1" "uusdc".toList 3 none).st
     isOk (setPeriod s "a1" 1 5).out = true ∧ isOk (setPeriod s "A1" 1 5).out = true ∧ isOk (setPeriod s "a2" 1 5).out = false := by decide
+
+/-- **what the query servers answer is the same before and after a rejected message**: the Tenant and Tenants queries (with treasury
+balances), the UTXRs list and the by-request-id lookup of every tenant -/
+theorem rejected_leaves_every_query (H : Str → Str) (s : State) (op : Op) (hm : IsSettlementMsg op)
+    (hrej : isOk (step H s op).out = false) (t : Nat) (req : Str) :
+    qTenant (step H s op).st t = qTenant s t ∧ qTenants (step H s op).st = qTenants s ∧
+    qUtxrs (step H s op).st t = qUtxrs s t ∧ lookup (step H s op).st.st t req = lookup s.st t req := by
+  rw [rejected_changes_nothing H s op hm hrej]
+  exact ⟨rfl, rfl, rfl, rfl⟩
+
 
 /-! ### transactions of several messages (baseapp: one branch, written only when every message succeeded) -/
 
